@@ -123,6 +123,15 @@ def h(cfg):
                 r = MermaidNetwork(w)
             else:
                 r = DhtmlxGantt(w)
+            # the renderer object may be kept while the WBS is edited: it must show the WBS as it is when rendering
+            if choose('edit_after_construct', 2):
+                victim = tasks[-1]
+                if parent[-1] == -1 and not victim.predecessors and not victim.successors and not list(victim.children) and n > 1:
+                    w.remove(victim)
+                    tasks = tasks[:-1]
+                    parent = parent[:-1]
+                    n -= 1
+                    note('desc', desc + ' (last task removed after the renderer was created)')
             doc = r.to_html()
             nb = r._repr_html_()
         except Exception as ex:
